@@ -48,9 +48,11 @@ type QUICSpec struct {
 	// random permutation per connection, before they are serialized into the Initial
 	// CRYPTO stream. This mirrors real Chrome, which randomizes the QTP wire order on
 	// every handshake; without it the parameter order is fixed by the spec and becomes
-	// a trivial discriminator signal. The shuffle reorders the extension's parameter
-	// slice in place at connection-setup time (so a freshly built spec randomizes each
-	// connection); it does not change which parameters or values are sent.
+	// a trivial discriminator signal. The shuffle is applied at connection-setup time to
+	// the connection's own copy of the extension's parameter list, so every dial draws a
+	// fresh order — also when one spec value is dialed again — and the spec's own list
+	// keeps the order it was written in; it does not change which parameters or values
+	// are sent.
 	RandomizeTransportParameters bool
 
 	// SuppressTransportParameters lists QUIC transport parameter IDs to drop from the
